@@ -152,3 +152,48 @@ type E4 struct {
 	E3
 	Hz bool
 }
+
+// Str1 / Str2 mix `,string` tagged and plain numeric / bool members, in both declaration orders.
+type Str1 struct {
+	A int
+	B float64
+	C bool
+	D int `json:"d,string"`
+}
+
+// Str2 declares the `,string` members first and in between.
+type Str2 struct {
+	D int `json:",string"`
+	A int
+	C bool `json:"c,string"`
+	B float64
+	E float64 `json:"e,string"`
+	F bool
+}
+
+// Col1..Col3: the json tag of one member equals a Go name (exact, first letter lowered, all lower) of ANOTHER member.
+type Col1 struct {
+	Kind string `json:"type"`
+	Type string `json:"label"`
+}
+
+// Col2 swaps the names of two int members.
+type Col2 struct {
+	Id  int `json:"num"`
+	Num int `json:"id"`
+	Z   int `json:"z,omitempty"`
+}
+
+// Col3: exact-name collision, one member may be absent from the data (omitempty).
+type Col3 struct {
+	Name  string `json:"Title"`
+	Title string `json:"name,omitempty"`
+	Count int    `json:"count"`
+}
+
+// L1 has members of static type []any, map[string]any and any that hold user struct pointers, directly and nested.
+type L1 struct {
+	Items []any
+	M     map[string]any
+	X     any
+}
